@@ -28,6 +28,7 @@ pub struct Window {
     size: u16,
     chunk_size: usize,
     file: File,
+    end_of_file: bool,
 }
 
 impl Window {
@@ -38,17 +39,24 @@ impl Window {
             size,
             chunk_size,
             file,
+            end_of_file: false,
         }
     }
 
     /// Fills the `Window` with chunks of data from the file.
-    /// Returns `true` if the `Window` is full.
+    /// Returns `true` if the `Window` is full. Once the final (short) chunk
+    /// of the file has been read, no further chunks are added.
     pub fn fill(&mut self) -> Result<bool, Box<dyn Error>> {
         for _ in self.len()..self.size {
+            if self.end_of_file {
+                return Ok(false);
+            }
+
             let mut chunk = vec![0; self.chunk_size];
             let size = self.file.read(&mut chunk)?;
 
             if size != self.chunk_size {
+                self.end_of_file = true;
                 chunk.truncate(size);
                 self.elements.push_back(chunk);
                 return Ok(false);
